@@ -30,7 +30,7 @@ ASSUMPTIONS = ["voxels are equal rectangles ordered column-major with y decreasi
 QUICK = dict(cases=400, workers=2, timecap=60)
 THOROUGH = dict(cases=40000, workers=16, timecap=600)
 REQUIRED = {"const": 1000, "linear": 1000, "bilinear": 500, "quadratic": 200, "admt_finite": 50, "admt_const": 50,
-            "admt_iso": 50, "admt_analytic": 50}
+            "admt_iso": 50, "admt_analytic": 50, "admt_scale": 100, "sibling": 300}
 
 
 def gen_case(rng, tier):
@@ -69,6 +69,9 @@ def gen_case(rng, tier):
         case["psi"] = psi
         an = [1, 1.0, 10, float(10 ** rng.uniform(0, 4)), float(rng.uniform(1, 3))][int(rng.integers(5))]
         case["anisotropy"] = an
+        # the operator does not depend on the scale (units) of the flux map: drive tiny and huge flux values as well
+        if rng.random() < 0.5:
+            case["psi_scale"] = float(10 ** rng.uniform(-12, 8))
     return case
 
 
@@ -128,6 +131,35 @@ def build_grid(case):
     return verts, m12, m21, cen[:, 0], cen[:, 1], np.array(ixs), np.array(iys)
 
 
+def _sibling_grids(case, ops_first, ctx):
+    """Grids with the same number of cells and the same voxel size but a different shape, built in the same process right
+    after the case's grid, must get their own operators; building the case's grid again must give identical operators."""
+    from cherab.tools.inversions.admt_utils import generate_derivative_operators
+    nx, ny = case["nx"], case["ny"]
+    n = nx * ny
+    shapes = [(ny, nx)] + [(a, n // a) for a in range(2, n // 2 + 1) if n % a == 0 and n // a >= 2 and (a, n // a) not in ((nx, ny), (ny, nx))][:2]
+    for sx, sy in shapes:
+        if (sx, sy) == (nx, ny):
+            continue
+        sc = dict(case, nx=sx, ny=sy)
+        verts, m12, m21, x, y, ix, iy = build_grid(sc)
+        ops = generate_derivative_operators(verts, m12, m21)
+        cf = [0.3, 1.0, -0.7, 0, 0.9, 0, 0, 0, 0, 0]
+        P = _poly(cf, x, y, x.mean(), y.mean(), sx * case["dx"], sy * case["dy"])
+        scale = np.max(np.abs(P["f"])) + 1e-300
+        ctx.close(ops["Dx"] @ P["f"], P["fx"], "sibling-grid:Dx", "Dx of a grid built after another grid with the same cell count and voxel size is not exact on a bilinear field",
+                  atol=1e-10 * scale / case["dx"], monitor="sibling", shape=[sx, sy], first=[nx, ny])
+        ctx.close(ops["Dy"] @ P["f"], P["fy"], "sibling-grid:Dy", "Dy of a grid built after another grid with the same cell count and voxel size is not exact on a bilinear field",
+                  atol=1e-10 * scale / case["dy"], monitor="sibling", shape=[sx, sy], first=[nx, ny])
+        ctx.close(ops["Dxy"] @ P["f"], P["fxy"], "sibling-grid:Dxy", "Dxy of a grid built after another grid with the same cell count and voxel size is not exact on a bilinear field",
+                  atol=1e-10 * scale / (case["dx"] * case["dy"]), monitor="sibling", shape=[sx, sy], first=[nx, ny])
+    verts, m12, m21, x, y, ix, iy = build_grid(case)
+    again = generate_derivative_operators(verts, m12, m21)
+    for nm in ("Dx", "Dy", "Dxx", "Dyy", "Dxy"):
+        ctx.check(np.array_equal(again[nm], ops_first[nm]), "history:operators-differ-on-rebuild:%s" % nm,
+                  "generate_derivative_operators gives a different %s for the same grid after other grids were built" % nm, monitor="sibling")
+
+
 def run_case(case, ctx):
     from cherab.tools.inversions.admt_utils import generate_derivative_operators, calculate_admt
     nx, ny, dx, dy = case["nx"], case["ny"], case["dx"], case["dy"]
@@ -144,6 +176,7 @@ def run_case(case, ctx):
             ctx.viol("operator-malformed:%s" % nm, "operator %s has shape %s or non-finite entries" % (nm, ops[nm].shape))
             return
     if case["kind"] == "deriv":
+        _sibling_grids(case, ops, ctx)
         c = list(case["f"])
         ctx.nontrivial()
         # constants
@@ -194,6 +227,9 @@ def run_case(case, ctx):
     psi_c = list(case["psi"])
     an = case["anisotropy"]
     PS = _poly(psi_c, x, y, xc, yc, Lx, Ly)
+    psc = float(case.get("psi_scale", 1.0))
+    if psc != 1.0:
+        PS = {k: v * psc for k, v in PS.items()}
     grad = np.hypot(PS["fx"], PS["fy"])
     # the *discrete* gradient the function actually uses must also be non-vanishing
     dgrad = np.hypot(ops["Dx"] @ PS["f"], ops["Dy"] @ PS["f"])
@@ -207,6 +243,11 @@ def run_case(case, ctx):
     if not ok:
         return
     rowabs = np.abs(L).sum(axis=1)
+    # metamorphic: rescaling the flux map (a change of units) must not change the operator
+    for c2 in (1e-9, 1e7):
+        L2 = calculate_admt(x, ops, PS["f"] * c2, dx, dy, anisotropy=an)
+        ctx.close(L2, L, "admt:depends-on-flux-scale", "ADMT operator changes when the flux map is multiplied by a constant",
+                  atol=1e-9 * rowabs.max(), monitor="admt_scale", factor=c2, psi_scale=psc)
     ctx.close(L @ np.ones(n), np.zeros(n), "admt:constants", "ADMT operator does not annihilate constants",
               atol=1e-11 * rowabs.max(), monitor="admt_const")
     F = _poly(list(case["f"][:6]) + [0, 0, 0, 0], x, y, xc, yc, Lx, Ly)
